@@ -13,6 +13,10 @@ HOSTILE_KEYS = [
     "ｆｕｌｌ", "ß", "SS", "ss", "İ", "i̇", "%2e%2e%2f", "key?query=1#frag", "a" * 255, "b" * 256, "k" * 4096,
     "\u00e9" * 300, "line1\nline2\tcol\n", "{\"key\":\"x\"}", "\tleadingtab", "endsnl\n", "\n", "\t",
     "index-v5/aa/bb/cc", "content-v2/sha256/aa/bb/cc", "tmp/.tmpXXXX", "C:\\windows", "~", "$HOME", "`id`",
+    # keys that look like the hashes the layout is built from
+    "da39a3ee5e6b4b0d3255bfef95601890afd80709", "0" * 40, "ABCDEF0123456789abcdef0123456789ABCDEF01",
+    "e3b0c44298fc1c149afbf4c8996fb92427ae41e4649b934ca495991b7852b855", "sha256-47DEQpj8HBSa+/TImW+5JCeuQeRkm5NMpJWZG3hSuFU=",
+    "aa/bb/" + "c" * 36,
 ]
 
 CONFUSABLE_GROUPS = [
